@@ -691,8 +691,10 @@ class Channel(BaseChannel):
                     self.logger.debug("interaction complete pattern seen, ending interaction")
                     break
 
+        # whatever the previous operation left unread (typically the blank that follows its prompt)
+        # arrives in front of the echo of the first input; it is not part of this interaction
         processed_buf += self._process_output(
-            buf=buf,
+            buf=buf.lstrip(),
             strip_prompt=False,
         )
 
